@@ -57,7 +57,7 @@ ASSUMPTIONS = [
   'start versions above SCHEMA_VERSION (downgrade) are out of scope of the statement',
 ]
 BUDGET = {'quick': dict(examples=2400, shards=8, max_seconds=50),
-          'thorough': dict(examples=48000, shards=16, max_seconds=540)}
+          'thorough': dict(examples=48000, shards=16, max_seconds=1800)}
 MIN_NONTRIVIAL = 20
 SHRINK_BUDGET = {'quick': 250, 'thorough': 800}
 
